@@ -81,155 +81,169 @@ private theorem mem_checkValidName (n : String) (e : Err) :
 
 /-! #### level by level -/
 
+private theorem fx1 : Config.fixed.maskTypeName = false := rfl
+private theorem fx2 : Config.fixed.maskDuplicate = false := rfl
+private theorem fx3 : Config.fixed.maskImplType = false := rfl
+private theorem fx4 : Config.fixed.preciseResolver = true := rfl
+private theorem fx5 : Config.fixed.extraArgRequired = true := rfl
+private theorem fx6 : Config.fixed.subscriptionChecked = true := rfl
+
+private theorem validate_eq' (s : SchemaD) (rv : Bool) : validate s rv = validateFixed s rv := by
+  unfold validate; rw [config_fixed]
+
+private theorem mem_notInputErr (s : SchemaD) (r : Rule) (o : String) (a : ArgD) (e : Err) :
+    e ∈ notInputErr s r o a ↔ isInputType s a.type = false ∧ e = ⟨r, [a.name, o, a.type.render]⟩ := by
+  unfold notInputErr; cases isInputType s a.type <;> simp
+
+private theorem any_key_bool {α} (key : α → String) (pre : List α) (k : String) :
+    (pre.any (fun y => true && key y == k) = true) ↔ k ∈ pre.map key := any_key_iff key pre k
+
+/-- membership in one iteration of a "name / duplicate / body" loop -/
+private theorem mem_step {α} (key : α → String) (pre : List α) (x : α) (nameErrs dupErr body : List Err) (e : Err) :
+    e ∈ nameErrs ++ (if (([] : List String).contains (key x) || pre.any (fun y => true && key y == key x)) = true then dupErr else []) ++ body ↔
+      e ∈ nameErrs ∨ (key x ∈ pre.map key ∧ e ∈ dupErr) ∨ e ∈ body := by
+  simp only [List.contains_nil, Bool.false_or, List.mem_append, or_assoc]
+  refine or_congr Iff.rfl (or_congr ?_ Iff.rfl)
+  cases hd : pre.any (fun y => true && key y == key x) with
+  | true => simp [(any_key_iff key pre (key x)).1 hd]
+  | false =>
+    have : key x ∉ pre.map key := fun hm => by rw [(any_key_iff key pre (key x)).2 hm] at hd; exact absurd hd (by simp)
+    simp [this]
+
 private theorem mem_validateArguments (s : SchemaD) (r1 r2 : Rule) (owner : String) (args : List ArgD) (e : Err) :
     e ∈ validateArguments s r1 r2 owner args ↔ ArgViol s r1 r2 owner args e := by
-  unfold validateArguments
+  unfold validateArguments validateArgumentsWith
   rw [mem_forSeen (·.name) _ (fun _ => true) (fun _ _ _ => rfl) (fun _ _ => rfl) e args []]
+  simp only [fx2, Bool.and_false, Bool.false_eq_true, if_false]
   constructor
   · rintro ⟨pre, a, hat, h⟩
-    simp only [List.contains_nil, Bool.false_or, List.mem_append, mem_checkValidName] at h
-    rcases h with ⟨hn, rfl⟩ | h
-    · exact .name hat hn
-    · cases hd : pre.any (fun y => true && y.name == a.name) with
-      | true =>
-        rw [hd] at h; simp only [if_true, List.mem_singleton] at h; subst h
-        exact .dup hat ((any_key_iff (·.name) pre a.name).1 hd)
-      | false =>
-        rw [hd] at h; simp only [Bool.false_eq_true, if_false] at h
-        have hnd : a.name ∉ pre.map (·.name) := fun hm => by
-          rw [(any_key_iff (·.name) pre a.name).2 hm] at hd; exact absurd hd (by simp)
-        cases hi : isInputType s a.type with
-        | true => rw [hi] at h; simp at h
-        | false => rw [hi] at h; simp only [Bool.false_eq_true, if_false, List.mem_singleton] at h; subst h; exact .notInput hat hnd hi
+    rcases (mem_step (·.name) pre a _ _ _ e).1 h with h | ⟨hm, h⟩ | h
+    · obtain ⟨hn, rfl⟩ := (mem_checkValidName _ _).1 h; exact .name hat hn
+    · simp only [List.mem_singleton] at h; subst h; exact .dup hat hm
+    · obtain ⟨hi, rfl⟩ := (mem_notInputErr _ _ _ _ _).1 h; exact .notInput hat hi
   · intro h
     cases h with
-    | @name pre a hat hn =>
-      exact ⟨pre, a, hat, by simp [mem_checkValidName, hn]⟩
-    | @dup pre a hat hm =>
-      refine ⟨pre, a, hat, ?_⟩
-      simp only [List.contains_nil, Bool.false_or, (any_key_iff (·.name) pre a.name).2 hm, if_true, List.mem_append,
-        List.mem_singleton, or_true]
-    | @notInput pre a hat hnm hi =>
-      refine ⟨pre, a, hat, ?_⟩
-      have : pre.any (fun y => true && y.name == a.name) = false := by
-        cases hd : pre.any (fun y => true && y.name == a.name) with
-        | false => rfl
-        | true => exact absurd ((any_key_iff (·.name) pre a.name).1 hd) hnm
-      simp only [List.contains_nil, Bool.false_or, this, Bool.false_eq_true, if_false, hi, List.mem_append,
-        List.mem_singleton, or_true]
+    | @name pre a hat hn => exact ⟨pre, a, hat, (mem_step (·.name) pre a _ _ _ _).2 (Or.inl ((mem_checkValidName _ _).2 ⟨hn, rfl⟩))⟩
+    | @dup pre a hat hm => exact ⟨pre, a, hat, (mem_step (·.name) pre a _ _ _ _).2 (Or.inr (Or.inl ⟨hm, List.mem_singleton.2 rfl⟩))⟩
+    | @notInput pre a hat hi => exact ⟨pre, a, hat, (mem_step (·.name) pre a _ _ _ _).2 (Or.inr (Or.inr ((mem_notInputErr _ _ _ _ _).2 ⟨hi, rfl⟩)))⟩
 
-private theorem mem_resolverArgErr (path : String) (params : List ParamD) (varKw : Bool) (a : ArgD) (e : Err) :
-    e ∈ resolverArgErr path params varKw a ↔
-      (findParam params a.pythonName = none ∧ varKw = false ∧ e = ⟨.resMissingParam, [a.name, path]⟩) ∨
-      (∃ p, findParam params a.pythonName = some p ∧ p.kind = .posOnly ∧ e = ⟨.resPosOnly, [a.name, path]⟩) ∨
-      (∃ p, findParam params a.pythonName = some p ∧ p.kind ≠ .posOnly ∧ p.hasDefault = false ∧ a.hasDefault = false ∧
-          argRequired a = false ∧ e = ⟨.resNeedsDefault, [a.name, path]⟩) := by
+private theorem mem_resolverArgErr (path : String) (ps : List ParamD) (varKw : Bool) (a : ArgD) (e : Err) :
+    e ∈ resolverArgErr path ps varKw a ↔
+      (∃ p, keywordParam ps a.pythonName = some p ∧ p.hasDefault = false ∧ a.hasDefault = false ∧ argRequired a = false ∧
+          e = ⟨.resNeedsDefault, [a.name, path]⟩) ∨
+      (keywordParam ps a.pythonName = none ∧
+        ((∃ cl, findParam ps a.pythonName = some cl ∧ (leadingNames ps).contains cl.name = true ∧ cl.kind = .posOrKw ∧
+            e = ⟨.resCollides, [a.name, path]⟩) ∨
+         (∃ cl, findParam ps a.pythonName = some cl ∧ ¬ ((leadingNames ps).contains cl.name = true ∧ cl.kind = .posOrKw) ∧
+            cl.kind = .posOnly ∧ varKw = false ∧ e = ⟨.resPosOnly, [a.name, path]⟩) ∨
+         ((∀ cl, findParam ps a.pythonName = some cl →
+              ¬ ((leadingNames ps).contains cl.name = true ∧ cl.kind = .posOrKw) ∧ cl.kind ≠ .posOnly) ∧
+            varKw = false ∧ e = ⟨.resMissingParam, [a.name, path]⟩))) := by
   unfold resolverArgErr
-  cases findParam params a.pythonName with
-  | none => cases varKw <;> simp
+  cases keywordParam ps a.pythonName with
   | some p =>
-    by_cases hk : p.kind = .posOnly
-    · simp [hk]
-    · cases h1 : p.hasDefault <;> cases h2 : a.hasDefault <;> cases h3 : argRequired a <;> simp [hk]
+    cases h1 : p.hasDefault <;> cases h2 : a.hasDefault <;> cases h3 : argRequired a <;> simp
+  | none =>
+    cases hf : findParam ps a.pythonName with
+    | none => cases varKw <;> simp
+    | some cl =>
+      simp only []
+      cases h1 : (leadingNames ps).contains cl.name <;> cases hk : cl.kind <;> cases varKw <;> simp [h1, hk] <;> simp_all
 
 private theorem mem_validateResolverArguments (path : String) (args : List ArgD) (r : ResolverD)
     (hi : r.inspectable = true) (e : Err) :
     e ∈ validateResolverArguments path args r ↔ ResolverViol path args r e := by
-  unfold validateResolverArguments
-  simp only [hi, Bool.not_true, Bool.false_eq_true, if_false, List.mem_append, List.mem_flatMap, mem_resolverArgErr]
+  unfold validateResolverArguments validateResolverArgumentsWith resolverErrs
+  simp only [hi, Bool.not_true, Bool.false_eq_true, if_false, fx4, if_true, List.mem_append, List.mem_flatMap,
+    mem_resolverArgErr]
   constructor
-  · rintro ((⟨a, ha, h⟩ | h) | ⟨p, hp, h⟩)
-    · rcases h with ⟨h1, h2, rfl⟩ | ⟨p, h1, h2, rfl⟩ | ⟨p, h1, h2, h3, h4, h5, rfl⟩
-      · exact .missingParam ha h1 h2
-      · exact .posOnly ha h1 h2
-      · exact .needsDefault ha h1 h2 h3 h4 h5
+  · rintro ((h | ⟨a, ha, h⟩) | ⟨p, hp, h⟩)
     · split at h
       · rename_i hc
         simp only [List.mem_singleton] at h; subst h
         simp only [Bool.and_eq_true, Bool.not_eq_true', decide_eq_true_eq] at hc
         exact .positional hc.1 hc.2
       · simp at h
+    · rcases h with ⟨p, h1, h2, h3, h4, rfl⟩ | ⟨hk, ⟨cl, h1, h2, h3, rfl⟩ | ⟨cl, h1, h2, h3, h4, rfl⟩ | ⟨h1, h2, rfl⟩⟩
+      · exact .needsDefault ha h1 h2 h3 h4
+      · exact .collides ha hk h1 h2 h3
+      · exact .posOnly ha hk h1 h2 h3 h4
+      · exact .missingParam ha hk h1 h2
     · cases hd : p.hasDefault with
       | true => rw [hd] at h; simp at h
       | false => rw [hd] at h; simp only [Bool.false_eq_true, if_false, List.mem_singleton] at h; subst h; exact .extraRequired hp hd
   · intro h
     cases h with
-    | @missingParam a ha h1 h2 => exact Or.inl (Or.inl ⟨a, ha, Or.inl ⟨h1, h2, rfl⟩⟩)
-    | @posOnly a p ha h1 h2 => exact Or.inl (Or.inl ⟨a, ha, Or.inr (Or.inl ⟨p, h1, h2, rfl⟩)⟩)
-    | @needsDefault a p ha h1 h2 h3 h4 h5 => exact Or.inl (Or.inl ⟨a, ha, Or.inr (Or.inr ⟨p, h1, h2, h3, h4, h5, rfl⟩)⟩)
-    | positional h1 h2 => exact Or.inl (Or.inr (by simp [h1, h2]))
+    | positional h1 h2 => exact Or.inl (Or.inl (by simp [h1, h2]))
+    | @needsDefault a p ha h1 h2 h3 h4 => exact Or.inl (Or.inr ⟨a, ha, Or.inl ⟨p, h1, h2, h3, h4, rfl⟩⟩)
+    | @collides a cl ha hk h1 h2 h3 => exact Or.inl (Or.inr ⟨a, ha, Or.inr ⟨hk, Or.inl ⟨cl, h1, h2, h3, rfl⟩⟩⟩)
+    | @posOnly a cl ha hk h1 h2 h3 h4 => exact Or.inl (Or.inr ⟨a, ha, Or.inr ⟨hk, Or.inr (Or.inl ⟨cl, h1, h2, h3, h4, rfl⟩)⟩⟩)
+    | @missingParam a ha hk h1 h2 => exact Or.inl (Or.inr ⟨a, ha, Or.inr ⟨hk, Or.inr (Or.inr ⟨h1, h2, rfl⟩)⟩⟩)
     | @extraRequired p hp hd => exact Or.inr ⟨p, hp, by simp [hd]⟩
+
+private theorem mem_resolverPart (rv : Bool) (path : String) (args : List ArgD) (o : Option ResolverD) (e : Err) :
+    e ∈ resolverPart Config.fixed rv path args o ↔
+      ∃ r, o = some r ∧ rv = true ∧ r.inspectable = true ∧ ResolverViol path args r e := by
+  unfold resolverPart
+  cases o with
+  | none => simp
+  | some r =>
+    cases rv with
+    | false => simp
+    | true =>
+      cases hi : r.inspectable with
+      | true =>
+        have := mem_validateResolverArguments path args r hi e
+        unfold validateResolverArguments at this
+        simp [this, hi]
+      | false => simp [validateResolverArgumentsWith, hi]
 
 private theorem mem_fieldBody (s : SchemaD) (rv : Bool) (t : TypeD) (f : FieldD) (e : Err) :
     e ∈ fieldBody s rv t f ↔
       (isOutputType s f.type = false ∧ e = ⟨.fieldNotOutput, [f.name, t.name, f.type.render]⟩) ∨
       ArgViol s .dupArg .argNotInput (t.name ++ "." ++ f.name) f.args e ∨
       (∃ r, pickResolver s t f = some r ∧ rv = true ∧ r.inspectable = true ∧
+        ResolverViol (t.name ++ "." ++ f.name) f.args r e) ∨
+      (∃ r, f.subscriptionResolver = some r ∧ rv = true ∧ r.inspectable = true ∧
         ResolverViol (t.name ++ "." ++ f.name) f.args r e) := by
-  unfold fieldBody
-  simp only [List.mem_append, mem_validateArguments, or_assoc]
-  refine or_congr ?_ (or_congr Iff.rfl ?_)
-  · cases isOutputType s f.type <;> simp
-  · cases hp : pickResolver s t f with
-    | none => simp
-    | some r =>
-      cases rv with
-      | false => simp
-      | true =>
-        cases hi : r.inspectable with
-        | true => simp [mem_validateResolverArguments _ _ _ hi, hi]
-        | false => simp [validateResolverArguments, hi]
-
-private theorem not_any_key {α} (key : α → String) (pre : List α) (k : String) (h : k ∉ pre.map key) :
-    pre.any (fun y => true && key y == k) = false := by
-  cases hd : pre.any (fun y => true && key y == k) with
-  | false => rfl
-  | true => exact absurd ((any_key_iff key pre k).1 hd) h
+  have ha := mem_validateArguments s .dupArg .argNotInput (t.name ++ "." ++ f.name) f.args e
+  unfold validateArguments at ha
+  unfold fieldBody fieldBodyWith
+  simp only [List.mem_append, ha, mem_resolverPart, fx6, if_true, or_assoc]
+  refine or_congr ?_ Iff.rfl
+  cases isOutputType s f.type <;> simp
 
 private theorem mem_validateFields (s : SchemaD) (rv : Bool) (t : TypeD) (e : Err) :
     e ∈ validateFields s rv t ↔ (t.fields = [] ∧ e = ⟨.noFields, [t.name]⟩) ∨ FieldViol s rv t e := by
-  unfold validateFields
+  have hb := mem_fieldBody s rv t
+  unfold fieldBody at hb
+  unfold validateFields validateFieldsWith
   rw [List.mem_append, mem_forSeen (·.name) _ (fun _ => true) (fun _ _ _ => rfl) (fun _ _ => rfl) e t.fields []]
+  simp only [fx2, Bool.and_false, Bool.false_eq_true, if_false]
   refine or_congr ?_ ?_
   · cases h : t.fields <;> simp
   · constructor
     · rintro ⟨pre, f, hat, h⟩
-      simp only [List.contains_nil, Bool.false_or, List.mem_append, mem_checkValidName] at h
-      rcases h with ⟨hn, rfl⟩ | h
-      · exact .name hat hn
-      · cases hd : pre.any (fun y => true && y.name == f.name) with
-        | true =>
-          rw [hd] at h; simp only [if_true, List.mem_singleton] at h; subst h
-          exact .dup hat ((any_key_iff (·.name) pre f.name).1 hd)
-        | false =>
-          rw [hd] at h; simp only [Bool.false_eq_true, if_false] at h
-          have hnd : f.name ∉ pre.map (·.name) := fun hm => by
-            rw [(any_key_iff (·.name) pre f.name).2 hm] at hd; exact absurd hd (by simp)
-          rcases (mem_fieldBody s rv t f e).1 h with ⟨ho, rfl⟩ | ha | ⟨r, h1, h2, h3, h4⟩
-          · exact .notOutput hat hnd ho
-          · exact .arg hat hnd ha
-          · exact .resolver hat hnd h1 h2 h3 h4
+      rcases (mem_step (·.name) pre f _ _ _ e).1 h with h | ⟨hm, h⟩ | h
+      · obtain ⟨hn, rfl⟩ := (mem_checkValidName _ _).1 h; exact .name hat hn
+      · simp only [List.mem_singleton] at h; subst h; exact .dup hat hm
+      · rcases (hb f e).1 h with ⟨ho, rfl⟩ | ha | ⟨r, h1, h2, h3, h4⟩ | ⟨r, h1, h2, h3, h4⟩
+        · exact .notOutput hat ho
+        · exact .arg hat ha
+        · exact .resolver hat h1 h2 h3 h4
+        · exact .subscription hat h1 h2 h3 h4
     · intro h
       cases h with
-      | @name pre f hat hn => exact ⟨pre, f, hat, by simp [mem_checkValidName, hn]⟩
-      | @dup pre f hat hm =>
-        exact ⟨pre, f, hat, by simp only [List.contains_nil, Bool.false_or, (any_key_iff (·.name) pre f.name).2 hm,
-          if_true, List.mem_append, List.mem_singleton, or_true]⟩
-      | @notOutput pre f hat hnm ho =>
-        refine ⟨pre, f, hat, ?_⟩
-        simp only [List.contains_nil, Bool.false_or, not_any_key (·.name) pre f.name hnm, Bool.false_eq_true, if_false,
-          List.mem_append]
-        exact Or.inr ((mem_fieldBody s rv t f _).2 (Or.inl ⟨ho, rfl⟩))
-      | @arg pre f e hat hnm ha =>
-        refine ⟨pre, f, hat, ?_⟩
-        simp only [List.contains_nil, Bool.false_or, not_any_key (·.name) pre f.name hnm, Bool.false_eq_true, if_false,
-          List.mem_append]
-        exact Or.inr ((mem_fieldBody s rv t f _).2 (Or.inr (Or.inl ha)))
-      | @resolver pre f r e hat hnm h1 h2 h3 h4 =>
-        refine ⟨pre, f, hat, ?_⟩
-        simp only [List.contains_nil, Bool.false_or, not_any_key (·.name) pre f.name hnm, Bool.false_eq_true, if_false,
-          List.mem_append]
-        exact Or.inr ((mem_fieldBody s rv t f _).2 (Or.inr (Or.inr ⟨r, h1, h2, h3, h4⟩)))
+      | @name pre f hat hn => exact ⟨pre, f, hat, (mem_step (·.name) pre f _ _ _ _).2 (Or.inl ((mem_checkValidName _ _).2 ⟨hn, rfl⟩))⟩
+      | @dup pre f hat hm => exact ⟨pre, f, hat, (mem_step (·.name) pre f _ _ _ _).2 (Or.inr (Or.inl ⟨hm, List.mem_singleton.2 rfl⟩))⟩
+      | @notOutput pre f hat ho =>
+        exact ⟨pre, f, hat, (mem_step (·.name) pre f _ _ _ _).2 (Or.inr (Or.inr ((hb f _).2 (Or.inl ⟨ho, rfl⟩))))⟩
+      | @arg pre f e hat ha =>
+        exact ⟨pre, f, hat, (mem_step (·.name) pre f _ _ _ _).2 (Or.inr (Or.inr ((hb f _).2 (Or.inr (Or.inl ha)))))⟩
+      | @resolver pre f r e hat h1 h2 h3 h4 =>
+        exact ⟨pre, f, hat, (mem_step (·.name) pre f _ _ _ _).2 (Or.inr (Or.inr ((hb f _).2 (Or.inr (Or.inr (Or.inl ⟨r, h1, h2, h3, h4⟩))))))⟩
+      | @subscription pre f r e hat h1 h2 h3 h4 =>
+        exact ⟨pre, f, hat, (mem_step (·.name) pre f _ _ _ _).2 (Or.inr (Or.inr ((hb f _).2 (Or.inr (Or.inr (Or.inr ⟨r, h1, h2, h3, h4⟩))))))⟩
 
 private theorem mem_ifaceArgErr (ip op : String) (o : FieldD) (a : ArgD) (e : Err) :
     e ∈ ifaceArgErr ip op o a ↔
@@ -243,62 +257,61 @@ private theorem mem_ifaceArgErr (ip op : String) (o : FieldD) (a : ArgD) (e : Er
 
 private theorem mem_extraArgErr (ip op : String) (f : FieldD) (a : ArgD) (e : Err) :
     e ∈ extraArgErr ip op f a ↔
-      (argMap f a.name = none ∧ a.type.isNonNull = true ∧ e = ⟨.extraRequiredArg, [op, a.name, a.type.render, ip]⟩) := by
-  unfold extraArgErr
+      (argMap f a.name = none ∧ argRequired a = true ∧ e = ⟨.extraRequiredArg, [op, a.name, a.type.render, ip]⟩) := by
+  unfold extraArgErr extraArgErrWith extraArgBlocks
   cases argMap f a.name with
-  | none => cases a.type.isNonNull <;> simp
+  | none => cases argRequired a <;> simp [fx5]
   | some _ => simp
 
 private theorem mem_validateImplementation (s : SchemaD) (t it : TypeD) (e : Err) :
     e ∈ validateImplementation s t it ↔ ImplViol s t it e := by
-  unfold validateImplementation
+  have hx := mem_extraArgErr
+  unfold extraArgErr at hx
+  unfold validateImplementation validateImplementationWith
   simp only [List.mem_flatMap]
   constructor
   · rintro ⟨f, hf, h⟩
-    unfold implFieldErr at h
+    unfold implFieldErrWith at h
     cases hm : fieldMap t f.name with
     | none => rw [hm] at h; simp only [List.mem_singleton] at h; subst h; exact .fieldMissing hf hm
     | some o =>
       rw [hm] at h
-      simp only [] at h
-      cases hs : isSubtype s o.type f.type with
-      | false =>
-        rw [hs] at h; simp only [Bool.not_false, if_true, List.mem_singleton] at h; subst h
-        exact .fieldType hf hm (fun hsub => by rw [(subtype_iff s _ _).2 hsub] at hs; exact absurd hs (by simp))
-      | true =>
-        have hsub := (subtype_iff s _ _).1 hs
-        rw [hs] at h
-        simp only [Bool.not_true, Bool.false_eq_true, if_false, List.mem_append, List.mem_flatMap, mem_ifaceArgErr,
-          mem_extraArgErr] at h
-        rcases h with ⟨a, ha, ⟨h1, rfl⟩ | ⟨oa, h1, h2, rfl⟩⟩ | ⟨a, ha, h1, h2, rfl⟩
-        · exact .argMissing hf hm hsub ha h1
-        · exact .argType hf hm hsub ha h1 h2
-        · exact .extraRequired hf hm hsub ha h1 h2
+      simp only [fx3, Bool.and_false, Bool.false_eq_true, if_false, List.mem_append, implArgErrsWith, List.mem_flatMap,
+        mem_ifaceArgErr, hx] at h
+      rcases h with h | ⟨a, ha, ⟨h1, rfl⟩ | ⟨oa, h1, h2, rfl⟩⟩ | ⟨a, ha, h1, h2, rfl⟩
+      · cases hs : isSubtype s o.type f.type with
+        | false =>
+          rw [hs] at h; simp only [Bool.not_false, if_true, List.mem_singleton] at h; subst h
+          exact .fieldType hf hm (fun hsub => by rw [(subtype_iff s _ _).2 hsub] at hs; exact absurd hs (by simp))
+        | true => rw [hs] at h; simp at h
+      · exact .argMissing hf hm ha h1
+      · exact .argType hf hm ha h1 h2
+      · exact .extraRequired hf hm ha h1 h2
   · intro h
     cases h with
-    | @fieldMissing f hf hm => exact ⟨f, hf, by simp [implFieldErr, hm]⟩
+    | @fieldMissing f hf hm => exact ⟨f, hf, by simp [implFieldErrWith, hm]⟩
     | @fieldType f o hf hm hns =>
       refine ⟨f, hf, ?_⟩
       have : isSubtype s o.type f.type = false := by
         cases hs : isSubtype s o.type f.type with
         | false => rfl
         | true => exact absurd ((subtype_iff s _ _).1 hs) hns
-      simp [implFieldErr, hm, this]
-    | @argMissing f o a hf hm hs ha h1 =>
+      simp [implFieldErrWith, hm, this]
+    | @argMissing f o a hf hm ha h1 =>
       refine ⟨f, hf, ?_⟩
-      simp only [implFieldErr, hm, (subtype_iff s _ _).2 hs, Bool.not_true, Bool.false_eq_true, if_false, List.mem_append,
-        List.mem_flatMap, mem_ifaceArgErr, mem_extraArgErr]
-      exact Or.inl ⟨a, ha, Or.inl ⟨h1, rfl⟩⟩
-    | @argType f o a oa hf hm hs ha h1 h2 =>
+      simp only [implFieldErrWith, hm, fx3, Bool.and_false, Bool.false_eq_true, if_false, List.mem_append, implArgErrsWith,
+        List.mem_flatMap, mem_ifaceArgErr, hx]
+      exact Or.inr (Or.inl ⟨a, ha, Or.inl ⟨h1, rfl⟩⟩)
+    | @argType f o a oa hf hm ha h1 h2 =>
       refine ⟨f, hf, ?_⟩
-      simp only [implFieldErr, hm, (subtype_iff s _ _).2 hs, Bool.not_true, Bool.false_eq_true, if_false, List.mem_append,
-        List.mem_flatMap, mem_ifaceArgErr, mem_extraArgErr]
-      exact Or.inl ⟨a, ha, Or.inr ⟨oa, h1, h2, rfl⟩⟩
-    | @extraRequired f o a hf hm hs ha h1 h2 =>
+      simp only [implFieldErrWith, hm, fx3, Bool.and_false, Bool.false_eq_true, if_false, List.mem_append, implArgErrsWith,
+        List.mem_flatMap, mem_ifaceArgErr, hx]
+      exact Or.inr (Or.inl ⟨a, ha, Or.inr ⟨oa, h1, h2, rfl⟩⟩)
+    | @extraRequired f o a hf hm ha h1 h2 =>
       refine ⟨f, hf, ?_⟩
-      simp only [implFieldErr, hm, (subtype_iff s _ _).2 hs, Bool.not_true, Bool.false_eq_true, if_false, List.mem_append,
-        List.mem_flatMap, mem_ifaceArgErr, mem_extraArgErr]
-      exact Or.inr ⟨a, ha, h1, h2, rfl⟩
+      simp only [implFieldErrWith, hm, fx3, Bool.and_false, Bool.false_eq_true, if_false, List.mem_append, implArgErrsWith,
+        List.mem_flatMap, mem_ifaceArgErr, hx]
+      exact Or.inr (Or.inr ⟨a, ha, h1, h2, rfl⟩)
 
 private theorem any_id_iff (f : String → Bool) (pre : List String) (k : String) (hk : f k = true) :
     pre.any (fun y => f y && id y == k) = true ↔ k ∈ pre := by
@@ -309,11 +322,13 @@ private theorem any_id_iff (f : String → Bool) (pre : List String) (k : String
 
 private theorem mem_validateInterfaces (s : SchemaD) (t : TypeD) (e : Err) :
     e ∈ validateInterfaces s t ↔ IfaceViol s t e := by
-  unfold validateInterfaces
-  rw [mem_forSeen id (interfaceStep s t) (isIface s) ?_ ?_ e t.interfaces []]
+  have hv := mem_validateImplementation s t
+  unfold validateImplementation at hv
+  unfold validateInterfaces validateInterfacesWith
+  rw [mem_forSeen id (interfaceStepWith Config.fixed s t) (isIface s) ?_ ?_ e t.interfaces []]
   rotate_left
   · intro i dup h
-    unfold interfaceStep at h; unfold isIface
+    unfold interfaceStepWith at h; unfold isIface
     cases hf : s.findType i with
     | none => rw [hf] at h; simp at h
     | some it =>
@@ -322,7 +337,7 @@ private theorem mem_validateInterfaces (s : SchemaD) (t : TypeD) (e : Err) :
       · simp [hk]
       · simp [hk] at h
   · intro i h
-    unfold isIface at h; unfold interfaceStep
+    unfold isIface at h; unfold interfaceStepWith
     cases hf : s.findType i with
     | none => rw [hf] at h; simp at h
     | some it =>
@@ -331,7 +346,7 @@ private theorem mem_validateInterfaces (s : SchemaD) (t : TypeD) (e : Err) :
   constructor
   · rintro ⟨pre, i, hat, h⟩
     simp only [List.contains_nil, Bool.false_or, id] at h
-    unfold interfaceStep at h
+    unfold interfaceStepWith at h
     cases hf : s.findType i with
     | none =>
       rw [hf] at h; simp only [List.mem_singleton] at h; subst h
@@ -351,7 +366,7 @@ private theorem mem_validateInterfaces (s : SchemaD) (t : TypeD) (e : Err) :
             have h2 := (any_id_iff (isIface s) pre i hif).2 hm
             simp only [id] at h2
             rw [h2] at hd; exact absurd hd (by simp)
-          exact .impl hat hf hk hnp ((mem_validateImplementation s t it e).1 h)
+          exact .impl hat hf hk hnp ((hv it e).1 h)
       · have : (it.kind != .interface) = true := by simpa using hk
         rw [this] at h; simp only [if_true, List.mem_singleton] at h; subst h
         exact .notInterface hat (by simp [isIface, hf, hk])
@@ -360,7 +375,7 @@ private theorem mem_validateInterfaces (s : SchemaD) (t : TypeD) (e : Err) :
     | @notInterface pre i hat hni =>
       refine ⟨pre, i, hat, ?_⟩
       unfold isIface at hni
-      unfold interfaceStep
+      unfold interfaceStepWith
       cases hf : s.findType i with
       | none => simp
       | some it =>
@@ -370,23 +385,24 @@ private theorem mem_validateInterfaces (s : SchemaD) (t : TypeD) (e : Err) :
       refine ⟨pre, i, hat, ?_⟩
       have hd := (any_id_iff (isIface s) pre i hif).2 hm
       unfold isIface at hif
-      unfold interfaceStep
+      unfold interfaceStepWith
       cases hf : s.findType i with
       | none => rw [hf] at hif; simp at hif
       | some it =>
         rw [hf] at hif; simp only [beq_iff_eq] at hif
         simp only [id, List.contains_nil, Bool.false_or] at hd ⊢
         simp [hif, hd]
-    | @impl pre i it e hat hf hk hnp hv =>
+    | @impl pre i it e hat hf hk hnp hv' =>
       refine ⟨pre, i, hat, ?_⟩
       have hif : isIface s i = true := by simp [isIface, hf, hk]
       have hd : pre.any (fun y => isIface s y && id y == id i) = false := by
         cases hd : pre.any (fun y => isIface s y && id y == id i) with
         | false => rfl
         | true => exact absurd ((any_id_iff (isIface s) pre i hif).1 hd) hnp
-      simp only [List.contains_nil, Bool.false_or, hd, interfaceStep, hf, hk, bne_self_eq_false, Bool.false_eq_true,
+      simp only [List.contains_nil, Bool.false_or, hd, interfaceStepWith, hf, hk, bne_self_eq_false, Bool.false_eq_true,
         if_false]
-      exact (mem_validateImplementation s t it e).2 hv
+      exact (hv it e).2 hv'
+
 
 private theorem mem_validateUnionMembers (s : SchemaD) (t : TypeD) (e : Err) :
     e ∈ validateUnionMembers s t ↔ UnionViol s t e := by
@@ -450,87 +466,61 @@ private theorem mem_validateEnumValues (t : TypeD) (e : Err) : e ∈ validateEnu
 
 private theorem mem_validateInputFields (s : SchemaD) (t : TypeD) (e : Err) :
     e ∈ validateInputFields s t ↔ InputViol s t e := by
-  unfold validateInputFields
+  unfold validateInputFields validateInputFieldsWith
   rw [List.mem_append, mem_forSeen (·.name) _ (fun _ => true) (fun _ _ _ => rfl) (fun _ _ => rfl) e t.inputFields []]
+  simp only [fx2, Bool.and_false, Bool.false_eq_true, if_false]
   constructor
   · rintro (h | ⟨pre, a, hat, h⟩)
     · cases hm : t.inputFields with
       | nil => rw [hm] at h; simp only [List.isEmpty_nil, if_true, List.mem_singleton] at h; subst h; exact .empty hm
       | cons a as => rw [hm] at h; simp at h
-    · simp only [List.contains_nil, Bool.false_or, List.mem_append, mem_checkValidName] at h
-      rcases h with ⟨hn, rfl⟩ | h
-      · exact .name hat hn
-      · cases hd : pre.any (fun y => true && y.name == a.name) with
-        | true =>
-          rw [hd] at h; simp only [if_true, List.mem_singleton] at h; subst h
-          exact .dup hat ((any_key_iff (·.name) pre a.name).1 hd)
-        | false =>
-          rw [hd] at h; simp only [Bool.false_eq_true, if_false] at h
-          have hnd : a.name ∉ pre.map (·.name) := fun hm => by
-            rw [(any_key_iff (·.name) pre a.name).2 hm] at hd; exact absurd hd (by simp)
-          cases hi : isInputType s a.type with
-          | true => rw [hi] at h; simp at h
-          | false => rw [hi] at h; simp only [Bool.false_eq_true, if_false, List.mem_singleton] at h; subst h; exact .notInput hat hnd hi
+    · rcases (mem_step (·.name) pre a _ _ _ e).1 h with h | ⟨hm, h⟩ | h
+      · obtain ⟨hn, rfl⟩ := (mem_checkValidName _ _).1 h; exact .name hat hn
+      · simp only [List.mem_singleton] at h; subst h; exact .dup hat hm
+      · obtain ⟨hi, rfl⟩ := (mem_notInputErr _ _ _ _ _).1 h; exact .notInput hat hi
   · intro h
     cases h with
     | empty hm => exact Or.inl (by simp [hm])
-    | @name pre a hat hn => exact Or.inr ⟨pre, a, hat, by simp [mem_checkValidName, hn]⟩
-    | @dup pre a hat hm =>
-      exact Or.inr ⟨pre, a, hat, by simp only [List.contains_nil, Bool.false_or, (any_key_iff (·.name) pre a.name).2 hm,
-        if_true, List.mem_append, List.mem_singleton, or_true]⟩
-    | @notInput pre a hat hnm hi =>
-      exact Or.inr ⟨pre, a, hat, by simp only [List.contains_nil, Bool.false_or, not_any_key (·.name) pre a.name hnm,
-        Bool.false_eq_true, if_false, hi, List.mem_append, List.mem_singleton, or_true]⟩
+    | @name pre a hat hn => exact Or.inr ⟨pre, a, hat, (mem_step (·.name) pre a _ _ _ _).2 (Or.inl ((mem_checkValidName _ _).2 ⟨hn, rfl⟩))⟩
+    | @dup pre a hat hm => exact Or.inr ⟨pre, a, hat, (mem_step (·.name) pre a _ _ _ _).2 (Or.inr (Or.inl ⟨hm, List.mem_singleton.2 rfl⟩))⟩
+    | @notInput pre a hat hi => exact Or.inr ⟨pre, a, hat, (mem_step (·.name) pre a _ _ _ _).2 (Or.inr (Or.inr ((mem_notInputErr _ _ _ _ _).2 ⟨hi, rfl⟩)))⟩
+
+private theorem mem_typeBody (s : SchemaD) (rv : Bool) (t : TypeD) (e : Err) :
+    e ∈ typeBodyWith Config.fixed s rv t ↔
+      ((t.kind = .object ∨ t.kind = .interface) ∧ ((t.fields = [] ∧ e = ⟨.noFields, [t.name]⟩) ∨ FieldViol s rv t e)) ∨
+      (t.kind = .object ∧ IfaceViol s t e) ∨ (t.kind = .union ∧ UnionViol s t e) ∨
+      (t.kind = .enum ∧ EnumViol t e) ∨ (t.kind = .input ∧ InputViol s t e) := by
+  have h1 := mem_validateFields s rv t e
+  have h2 := mem_validateInterfaces s t e
+  have h3 := mem_validateInputFields s t e
+  unfold validateFields at h1; unfold validateInterfaces at h2; unfold validateInputFields at h3
+  unfold typeBodyWith
+  cases hk : t.kind <;> simp [h1, h2, h3, mem_validateUnionMembers, mem_validateEnumValues]
 
 private theorem mem_validateType (s : SchemaD) (rv : Bool) (t : TypeD) (e : Err) :
     e ∈ validateType s rv t ↔ TypeViol s rv t e := by
-  unfold validateType
-  cases hx : (t.builtin || isValidName t.name) with
-  | false =>
-    simp only [Bool.not_false, if_true, List.mem_singleton]
-    constructor
-    · rintro rfl; exact .typeName hx
-    · intro h
-      cases h with
-      | typeName _ => rfl
-      | noFields he _ _ => exact absurd he (by simp [Examined, hx])
-      | field he _ _ => exact absurd he (by simp [Examined, hx])
-      | iface he _ _ => exact absurd he (by simp [Examined, hx])
-      | union he _ _ => exact absurd he (by simp [Examined, hx])
-      | enum he _ _ => exact absurd he (by simp [Examined, hx])
-      | input he _ _ => exact absurd he (by simp [Examined, hx])
-  | true =>
-    have hex : Examined t := hx
-    simp only [Bool.not_true, Bool.false_eq_true, if_false]
-    constructor
-    · intro h
-      cases hk : t.kind with
-      | object =>
-        rw [hk] at h; simp only [List.mem_append, mem_validateFields, mem_validateInterfaces] at h
-        rcases h with (⟨h1, rfl⟩ | h) | h
-        · exact .noFields hex (Or.inl hk) h1
-        · exact .field hex (Or.inl hk) h
-        · exact .iface hex hk h
-      | interface =>
-        rw [hk] at h; simp only [mem_validateFields] at h
-        rcases h with ⟨h1, rfl⟩ | h
-        · exact .noFields hex (Or.inr hk) h1
-        · exact .field hex (Or.inr hk) h
-      | union => rw [hk] at h; exact .union hex hk ((mem_validateUnionMembers s t e).1 h)
-      | enum => rw [hk] at h; exact .enum hex hk ((mem_validateEnumValues t e).1 h)
-      | input => rw [hk] at h; exact .input hex hk ((mem_validateInputFields s t e).1 h)
-      | scalar => rw [hk] at h; simp at h
-    · intro h
-      cases h with
-      | typeName hf => rw [hx] at hf; exact absurd hf (by simp)
-      | noFields _ hk hf =>
-        rcases hk with hk | hk <;> simp [hk, mem_validateFields, hf]
-      | field _ hk hf =>
-        rcases hk with hk | hk <;> simp [hk, mem_validateFields, hf]
-      | iface _ hk hf => simp [hk, mem_validateInterfaces, hf]
-      | union _ hk hf => simp only [hk]; exact (mem_validateUnionMembers s t e).2 hf
-      | enum _ hk hf => simp only [hk]; exact (mem_validateEnumValues t e).2 hf
-      | input _ hk hf => simp only [hk]; exact (mem_validateInputFields s t e).2 hf
+  unfold validateType validateTypeWith typeNameErr
+  simp only [fx1, Bool.and_false, Bool.false_eq_true, if_false, List.mem_append, mem_typeBody]
+  constructor
+  · rintro (h | ⟨hk, ⟨hf, rfl⟩ | h⟩ | ⟨hk, h⟩ | ⟨hk, h⟩ | ⟨hk, h⟩ | ⟨hk, h⟩)
+    · cases hx : (t.builtin || isValidName t.name) with
+      | true => rw [hx] at h; simp at h
+      | false => rw [hx] at h; simp only [Bool.false_eq_true, if_false, List.mem_singleton] at h; subst h; exact .typeName hx
+    · exact .noFields hk hf
+    · exact .field hk h
+    · exact .iface hk h
+    · exact .union hk h
+    · exact .enum hk h
+    · exact .input hk h
+  · intro h
+    cases h with
+    | typeName hx => exact Or.inl (by simp [hx])
+    | noFields hk hf => exact Or.inr (Or.inl ⟨hk, Or.inl ⟨hf, rfl⟩⟩)
+    | field hk h => exact Or.inr (Or.inl ⟨hk, Or.inr h⟩)
+    | iface hk h => exact Or.inr (Or.inr (Or.inl ⟨hk, h⟩))
+    | union hk h => exact Or.inr (Or.inr (Or.inr (Or.inl ⟨hk, h⟩)))
+    | enum hk h => exact Or.inr (Or.inr (Or.inr (Or.inr (Or.inl ⟨hk, h⟩))))
+    | input hk h => exact Or.inr (Or.inr (Or.inr (Or.inr (Or.inr ⟨hk, h⟩))))
 
 private theorem mem_rootErr (s : SchemaD) (r : Rule) (o : Option String) (e : Err) :
     e ∈ rootErr s r o ↔ ∃ n, o = some n ∧ kindOf s n ≠ some .object ∧ e = ⟨r, [n]⟩ := by
@@ -558,8 +548,10 @@ private theorem mem_validateRootTypes (s : SchemaD) (e : Err) : e ∈ validateRo
     | @subscription n h1 h2 => exact Or.inr ⟨n, h1, h2, rfl⟩
 
 private theorem mem_validateDirectives (s : SchemaD) (e : Err) : e ∈ validateDirectives s ↔ DirViol s e := by
-  unfold validateDirectives
-  simp only [List.mem_flatMap, List.mem_append, mem_checkValidName, mem_validateArguments]
+  have ha := mem_validateArguments s .dirDupArg .dirArgNotInput
+  unfold validateArguments at ha
+  unfold validateDirectives validateDirectivesWith
+  simp only [List.mem_flatMap, List.mem_append, mem_checkValidName, ha]
   constructor
   · rintro ⟨d, hd, ⟨hn, rfl⟩ | h⟩
     · exact .name hd hn
@@ -576,8 +568,12 @@ private theorem mem_validateDirectives (s : SchemaD) (e : Err) : e ∈ validateD
     naming the position that breaks the rule). In particular every violated rule instance has its own
     error, whatever else is wrong with the schema, and nothing else is reported. -/
 theorem violation_iff (s : SchemaD) (rv : Bool) (e : Err) : e ∈ validate s rv ↔ Violation s rv e := by
-  unfold validate
-  simp only [List.mem_append, List.mem_flatMap, mem_validateRootTypes, mem_validateType, mem_validateDirectives]
+  have h1 := mem_validateType s rv
+  have h2 := mem_validateDirectives s e
+  unfold validateType at h1; unfold validateDirectives at h2
+  rw [validate_eq']
+  unfold validateFixed validateWith
+  simp only [List.mem_append, List.mem_flatMap, mem_validateRootTypes, h1, h2]
   constructor
   · rintro ((h | ⟨t, ht, h⟩) | h)
     · exact .root h
@@ -603,6 +599,34 @@ theorem valid_iff_no_violation (s : SchemaD) (rv : Bool) : ValidSchema s rv ↔ 
     | nil => rfl
     | cons e es => exact absurd ((violation_iff s rv e).1 (by rw [hv]; exact List.mem_cons_self ..)) (h e)
 
+/-! ### the code before the fixes C13-H4-H5-H6 did NOT report every violation (legacy variant, code that no longer exists) -/
+
+private def lInt : TypeD := { kind := .scalar, name := "Int", builtin := true }
+private def lBadType : TypeD := { kind := .object, name := "Bad-Name" }
+private def lQ : TypeD := { kind := .object, name := "Query", fields := [{ name := "a", type := .named "Bad-Name" }] }
+private def lSchema : SchemaD := { types := [lInt, lQ, lBadType] }
+private def lMasked : Config := { Config.fixed with maskTypeName := true }
+
+/-- LEGACY (hunt finding 4): with the `continue` after "Invalid type name", the empty type `Bad-Name` only got the
+    name error: the violation instance "must define at least one field" was not reported. -/
+theorem legacy_type_name_masks :
+    Violation lSchema true ⟨.noFields, ["Bad-Name"]⟩ ∧ (⟨.noFields, ["Bad-Name"]⟩ : Err) ∉ validateWith lMasked lSchema true := by
+  refine ⟨.type (t := lBadType) (by simp [lSchema]) (.noFields (Or.inl rfl) rfl), by decide⟩
+
+private def lF1 : FieldD := { name := "a", type := .named "Int" }
+private def lF2 : FieldD := { name := "a", type := .named "In" }
+private def lDupQ : TypeD := { kind := .object, name := "Query", fields := [lF1, lF2] }
+private def lIn : TypeD := { kind := .input, name := "In", inputFields := [{ name := "i", type := .named "Int" }] }
+private def lSchema2 : SchemaD := { types := [lInt, lIn, lDupQ] }
+
+/-- LEGACY (hunt finding 5): a repeated field was reported as a duplicate only; its own input/output-position
+    violation was withheld. -/
+theorem legacy_duplicate_masks :
+    Violation lSchema2 true ⟨.fieldNotOutput, ["a", "Query", "In"]⟩ ∧
+      (⟨.fieldNotOutput, ["a", "Query", "In"]⟩ : Err) ∉ validateWith { Config.fixed with maskDuplicate := true } lSchema2 true := by
+  refine ⟨.type (t := lDupQ) (by simp [lSchema2])
+    (.field (Or.inl rfl) (.notOutput (pre := [lF1]) (f := lF2) ⟨[], rfl⟩ (by decide))), by decide⟩
+
 /-! ### non-vacuity: three violations of three different rules in one schema, each with its own error -/
 
 private def exInt' : TypeD := { kind := .scalar, name := "Int", builtin := true }
@@ -612,12 +636,12 @@ private def exU : TypeD := { kind := .union, name := "U", members := ["Query", "
 private def exBad : SchemaD := { types := [exInt', exQ, exU] }
 
 example : Violation exBad true ⟨.invalidName, ["__a"]⟩ :=
-  .type (t := exQ) (by simp [exBad]) (.field (by unfold Examined; decide) (Or.inl rfl)
+  .type (t := exQ) (by simp [exBad]) (.field (Or.inl rfl)
     (.name (pre := [{ name := "a", type := .named "Int" }]) (f := exBadF) ⟨[], rfl⟩ (by decide)))
 example : Violation exBad true ⟨.unionMemberNotObject, ["U", "Int"]⟩ :=
-  .type (t := exU) (by simp [exBad]) (.union (by unfold Examined; decide) rfl (.notObject (pre := ["Query"]) ⟨["Query"], rfl⟩ (by decide)))
+  .type (t := exU) (by simp [exBad]) (.union rfl (.notObject (pre := ["Query"]) ⟨["Query"], rfl⟩ (by decide)))
 example : Violation exBad true ⟨.unionDup, ["U", "Query"]⟩ :=
-  .type (t := exU) (by simp [exBad]) (.union (by unfold Examined; decide) rfl (.dup (pre := ["Query", "Int"]) ⟨[], rfl⟩ (by decide) (by decide)))
+  .type (t := exU) (by simp [exBad]) (.union rfl (.dup (pre := ["Query", "Int"]) ⟨[], rfl⟩ (by decide) (by decide)))
 example : (validate exBad true).map (·.rule) = [.invalidName, .unionMemberNotObject, .unionDup] := by decide
 
 end PyGql.Props.C13
